@@ -7,6 +7,7 @@
   xorSkipsParentheses / bodyEscapesKeywords   the expression printer for derived attributes and WHERE rules (ATTRIBUTE_INITIALIZER*__out,
                    WHEREPrint): operator texts, parenthesisation and literal cases pinned; the two flags say whether XOR hands previous_op
                    down and whether identifiers / rule labels are keyword-escaped
+  paramsEscaped / localsInitialised   FUNCPrint: keyword-escaped parameter names in the def line; one assignment per LOCAL variable before the body
   skipIsContinue   STATEMENTPrint writes `continue` for SKIP; the assignment / RETURN / ESCAPE / IF / REPEAT cases and the identifier
                    and XOR cases of EXPRESSION__out are pinned as modelled in GenPyStmt.lean
   repeatBoundInclusive   LOOPpyout writes range(a, (b) + (1 if (s) > 0 else -1), s) for REPEAT i := a TO b BY s (else range(a, b, s))
@@ -231,6 +232,28 @@ def extract(repo):
         skip_cont = False
     else:
         raise ValueError("STATEMENTPrint: SKIP is written in neither of the two modelled ways")
+    # FUNCPrint: parameter names in the def line, LOCAL initial values
+    i = c.find("\nFUNCPrint( Function function, FILES * files ) {")
+    j = c.find("\nSTATEMENTSPrint( Linked_List stmts , int indent_level, FILE * file ) {", i)
+    if i < 0 or j < 0:
+        raise ValueError("FUNCPrint not found")
+    fp = sq(c[i:j])
+    if 'fprintf( files->lib, "%s%s,", param_name, is_python_keyword( param_name ) ? "_" : "" );' in fp:
+        params_esc = True
+    elif 'fprintf( files->lib, "%s,", param_name );' in fp:
+        params_esc = False
+    else:
+        raise ValueError("FUNCPrint: the parameter list is written in neither of the two modelled ways")
+    loc = ('fprintf( files->lib, "\\t%s%s = ", next->name->symbol.name, is_python_keyword( next->name->symbol.name ) ? "_" : "" ); '
+           'if( next->initializer ) { EXPRESSION_out( next->initializer, 0, files->lib ); } else { fprintf( files->lib, "None" ); } fprintf( files->lib, "\\n" );')
+    if loc in fp and "v->flags.constant || v->flags.parameter || v->offset <= last" in fp and "if( !next || v->offset < next->offset ) { next = v; }" in fp:
+        locals_init = True
+    elif "initializer" not in fp:
+        locals_init = False
+    else:
+        raise ValueError("FUNCPrint: LOCAL initial values are written in neither of the two modelled ways")
+    if "STATEMENTSPrint( function->u.proc->body, 1, files->lib );" not in fp:
+        raise ValueError("FUNCPrint: the body is no longer written by STATEMENTSPrint")
     # EXPRESSION__out: identifiers keyword-escaped, XOR through the parenthesising macro (exprCfg of GenPyStmt.lean)
     i = c.find("\nEXPRESSION__out( Expression e, int paren, Op_Code previous_op, FILE* file ) {")
     j = c.find("\nATTRIBUTE_INITIALIZERop__out(", i)
@@ -262,6 +285,10 @@ def bodyEscapesKeywords : Bool := {"true" if body_esc else "false"}
 /-- `LOOPpyout` writes the stop value of `range()` as `(b) + (1 if (s) > 0 else -1)` (the bound is the last value of the
 loop variable); `false`: the bound itself -/
 def repeatBoundInclusive : Bool := {"true" if rep_incl else "false"}
+/-- `FUNCPrint` writes the parameter names of the `def` line keyword-escaped -/
+def paramsEscaped : Bool := {"true" if params_esc else "false"}
+/-- `FUNCPrint` writes one assignment per LOCAL variable (its initial value, or None) before the body -/
+def localsInitialised : Bool := {"true" if locals_init else "false"}
 /-- `STATEMENTPrint` writes `continue` for SKIP (`false`: `break`) -/
 def skipIsContinue : Bool := {"true" if skip_cont else "false"}
 /-- the package named in the emitted import preamble -/
